@@ -19,7 +19,8 @@ THEOREMS = [P + n for n in (
     'gatherTime_cell', 'selectionOf_eq', 'split_partitions', 'subset_exact_in_order',
     'subset_time_exact_in_order', 'sort_stable_perm', 'merge_split_multiset', 'odd_even_partition',
     'bin_is_mean_of_bin', 'timeAsObs_entry', 'timeAsChan_entry', 'df_roundtrip',
-    'average_by_is_group_mean', 'reachable_inv')]
+    'average_by_is_group_mean', 'reachable_inv', 'split_channel_partitions', 'split_time_partitions',
+    'tensor_entry', 'constructor_check_sound', 'merge_split_columns')]
 RULE = ('one case = initial Dataset/TemporalDataset (1-6 observations, sometimes 17-24 for sort '
         'stability; 1-4 channels; 1-4 time points; str/int descriptor columns with duplicate values, '
         'list- or array-typed) + a sequence of <= 8 (thorough <= 30) operations with symbolic '
@@ -33,7 +34,9 @@ BRANCHES = ['op:split_obs', 'op:split_channel', 'op:split_time', 'op:subset_obs'
             'op:copy',
             'op:average_by', 'op:tensor', 'class:flat', 'class:temporal', 'size1:obs', 'size1:chan',
             'size1:time', 'merge:promoted', 'subset:list', 'subset:scalar', 'subset:empty',
-            'sort:temporal-large', 'desc:array', 'desc:list', 'out:inadmissible']
+            'sort:temporal-large', 'desc:array', 'desc:list', 'out:inadmissible',
+            'init:rejected-length', 'init:rejected-notime', 'init:default-time', 'init:none-descriptors',
+            'merge:rejected-mixed', 'alias:merge_subsets', 'alias:convert_to_dataset', 'df:default-name']
 ASSUMPTIONS = [
     'measurements are small integers, so numpy means agree with exact rational means to 1e-9',
     'descriptor columns are homogeneous (all int or all str) and key names of the four descriptor '
@@ -122,6 +125,10 @@ def gen_op(rng, name=None, temporal=True):
             op.update(lo=rng.randrange(6), hi=rng.randrange(6))
     elif name == 'nested_odd_even':
         op['k2'] = rng.randrange(4)
+    elif name in ('merge', 'time_as_observations') and rng.random() < 0.25:
+        op['alias'] = True          # deprecated spellings merge_subsets / convert_to_dataset
+    elif name == 'df_default' and rng.random() < 0.35:
+        op['noname'] = True         # from_df without channel_descriptor (default key 'name')
     elif name == 'bin_time':
         nb = rng.randint(1, 3)
         op['bins'] = [[rng.randrange(6) for _ in range(rng.randint(1, 3))] for _ in range(nb)]
@@ -183,8 +190,46 @@ def _directed(rng):
         init = gen_init(rng, True)
         return init, [gen_op(rng, 'time_as_observations'), gen_op(rng, 'split_obs'), {'name': 'merge'},
                       gen_op(rng, 'subset_obs'), gen_op(rng, 'tensor'), gen_op(rng, 'df_default')]
+    if t == 11 and rng.random() < 0.5:
+        # temporal dataset, one part converted to a flat one: merge of mixed classes is refused
+        init = gen_init(rng, True, no=rng.choice([2, 3, 4]))
+        init['obs'] = [['c', [i % 2 for i in range(len(init['meas']))]]]
+        return init, [{'name': 'split_obs', 'at': 0, 'k': 0}, {'name': 'time_as_channels', 'at': 0},
+                      {'name': 'merge'}, {'name': 'pick', 'at': 1}, gen_op(rng, 'copy')]
     init = gen_init(rng)
     return init, [gen_op(rng, 'split_obs'), gen_op(rng, 'subset_obs'), {'name': 'merge'}, gen_op(rng, 'sort_by')]
+
+
+def _special_init(rng):
+    """initial objects at the constructor's borders: None dictionaries, default time axis, and the
+    malformed stream the alignment hypothesis is about (must be rejected, never mis-attached)"""
+    t = rng.randrange(6)
+    init = gen_init(rng, temporal=(True if t in (1, 4) else None))
+    if t == 0:          # None instead of dictionaries
+        for ax in rng.sample(['obs', 'chan', 'desc'], rng.randint(1, 3)):
+            init[ax] = None
+        if init['temporal'] and rng.random() < 0.5:
+            init['time'] = None
+    elif t == 1:        # time_descriptors=None -> 'time' = arange(n_time)
+        init['time'] = None
+    elif t in (2, 3):   # one descriptor column too short / too long / a bare string
+        axes = ['obs', 'chan'] + (['time'] if init['temporal'] else [])
+        ax = rng.choice(axes)
+        col = rng.choice(init[ax])
+        how = rng.choice(['short', 'long', 'str'])
+        if how == 'short':
+            col[1] = col[1][:-1]
+        elif how == 'long':
+            col[1] = col[1] + col[1][:1]
+        else:
+            col[1] = 'a'
+            if len({'obs': init['meas'], 'chan': init['meas'][0], 'time': init['meas'][0][0]}[ax]) == 1:
+                col[1] = ['a', 'a']
+    elif t == 4:        # time descriptors without the mandatory 'time'
+        init['time'] = [['ph', _col(rng, len(init['meas'][0][0]), 'str', 2)]]
+    else:               # two classes in one workspace: merge must refuse
+        pass
+    return init
 
 
 def _random_case(rng, maxlen):
@@ -238,6 +283,10 @@ def generate(rng, tier):
     else:
         n_dir, n_rand, maxlen = 5000, 10000, 30
         yield from _exhaustive(rng)
+    for _ in range(n_dir // 8):
+        init = _special_init(rng)
+        ops = [gen_op(rng, temporal=init['temporal']) for _ in range(rng.randint(1, 4))]
+        yield _norm({'init': init, 'ops': ops})
     for _ in range(n_dir):
         init, ops = _directed(rng)
         yield _norm({'init': init, 'ops': ops})
@@ -304,7 +353,7 @@ def model_result(case, answers):
     if isinstance(a, dict) and 'model_error' in a:
         return a
     steps = []
-    for s in a:
+    for s in a['steps']:
         out = s['out']
         if isinstance(out, dict) and 'state' in out:
             out = {'state': [_un_ds(d) for d in out['state']]}
@@ -313,7 +362,7 @@ def model_result(case, answers):
             out = {'query': {k: (_unnum(v) if k in ('avg', 'tensor') else
                                  [_unlbl(x) for x in v] if k == 'uniq' else v) for k, v in q.items()}}
         steps.append({'args': _un_args(s['args']), 'out': out})
-    return steps
+    return {'init': a['init'] if isinstance(a['init'], str) else _un_ds(a['init']), 'steps': steps}
 
 
 def _diff(a, b, path=''):
@@ -343,9 +392,19 @@ def _diff(a, b, path=''):
 
 
 def compare(case, impl, model):
-    if isinstance(model, dict):
+    if 'model_error' in model:
         return f'model error {model}'
-    for n, si in enumerate(impl):
+    if isinstance(impl['init'], str) or isinstance(model['init'], str):
+        if impl['init'] != model['init']:
+            return (f"initial dataset: constructor {impl['init'] if isinstance(impl['init'], str) else 'accepts'}"
+                    f" ({impl.get('exc')}), model {model['init'] if isinstance(model['init'], str) else 'accepts'}")
+        o = O.run(case)
+        return f"model = implementation, but the oracle says: {o['what']}" if o else None
+    d = _diff(impl['init'], model['init'], 'init')
+    if d:
+        return f'initial dataset: {d}  [impl != model]'
+    model = model['steps']
+    for n, si in enumerate(impl['steps']):
         name = case['ops'][n]['name']
         sm = model[n]
         d = _diff(si['args'], sm['args'], 'args')
@@ -386,9 +445,9 @@ def oracle(case):
         # shape of the dataset the failing operation was applied to (for known-finding matching)
         try:
             ws = [R.build(case['init'])]
-            for op in case['ops'][:o['step']]:
+            for op in case['ops'][:max(o['step'], 0)] if o['step'] >= 0 else []:
                 _, ws, _ = R.apply_step(ws, op)
-            op = case['ops'][o['step']]
+            op = case['ops'][o['step']] if o['step'] >= 0 else {}
             d = ws[op.get('at', 0) % len(ws)]
             no, nc, nt = R.dims(d)
             f.update(fail_n_obs=no, fail_n_chan=nc, fail_n_time=nt, fail_temporal=R.is_temporal(d))
@@ -413,17 +472,35 @@ def features(case, impl):
     kinds = case['init'].get('kinds', {})
     for v in kinds.values():
         br.add('desc:' + v)
-    if impl is not None:
-        for n, s in enumerate(impl):
+    init = case['init']
+    if impl is not None and impl['init'] == 'rejected':
+        br.add('init:rejected-' + ('notime' if impl.get('exc') == 'Warning' else 'length'))
+    if impl is not None and not isinstance(impl['init'], str):
+        if init['temporal'] and init['time'] is None:
+            br.add('init:default-time')
+        if init['obs'] is None or init['chan'] is None or init['desc'] is None:
+            br.add('init:none-descriptors')
+    steps = impl['steps'] if impl is not None else None
+    if steps is not None:
+        for n, s in enumerate(steps):
             op = case['ops'][n]
             out = s['out']
             if out == 'inadmissible':
                 br.add('out:inadmissible')
                 continue
+            if out == 'rejected':
+                br.add('merge:rejected-mixed')
+                continue
             if isinstance(out, dict) and 'exc' in out:
                 br.add('out:exception')
                 continue
             br.add('op:' + op['name'])
+            if op.get('alias') and op['name'] == 'merge':
+                br.add('alias:merge_subsets')
+            if op.get('alias') and op['name'] == 'time_as_observations':
+                br.add('alias:convert_to_dataset')
+            if op.get('noname') and op['name'] == 'df_default':
+                br.add('df:default-name')
             if op['name'] in ('subset_obs', 'subset_channel'):
                 a = s['args']
                 br.add('subset:scalar' if a.get('scalar') else 'subset:list')
@@ -442,7 +519,7 @@ def features(case, impl):
                     if d['temporal'] and d['time'] and any(len(v) == 0 for v in d['time'].values()):
                         br.add('subset:empty')
                 if op['name'] == 'merge' and n > 0:
-                    prev = [x for x in impl[:n] if isinstance(x['out'], dict) and 'state' in x['out']]
+                    prev = [x for x in steps[:n] if isinstance(x['out'], dict) and 'state' in x['out']]
                     if prev:
                         before = prev[-1]['out']['state']
                         after = out['state'][0]
@@ -456,7 +533,11 @@ def features(case, impl):
 
 
 def nontrivial_key(case, impl):
-    if impl is None or not any(isinstance(s['out'], dict) for s in impl):
+    if impl is None:
+        return None
+    if impl['init'] == 'rejected':
+        return ['rejected', case['init']['obs'], case['init']['chan'], case['init']['time']]
+    if not any(isinstance(s['out'], dict) for s in impl['steps']):
         return None
     return [case['init']['meas'], case['init']['obs'], case['ops']]
 
@@ -496,5 +577,7 @@ def _drop(init, axis, p):
         if not init['temporal']:
             return init
         ni['meas'] = [[[v for t, v in enumerate(c) if t != p] for c in r] for r in m]
-    ni[axis] = [[k, [v for q, v in enumerate(col) if q != p]] for k, col in init[axis]]
+    if init[axis] is not None:
+        ni[axis] = [[k, col if isinstance(col, str) else [v for q, v in enumerate(col) if q != p]]
+                    for k, col in init[axis]]
     return ni
